@@ -110,3 +110,17 @@ pub assume_specification[ char::to_digit ](c: char, radix: u32) -> (r: Option<u3
 pub fn slice_starts_with_is(block: &[char]) -> (r: bool)
     ensures r == (block@.len() >= 2 && block@[0] == 'I' && block@[1] == 's'),
 { unimplemented!() }
+
+// R9: `flags.to_vec()` on a `&[u32]`
+#[verifier::external_body]
+pub fn slice_u32_to_vec(s: &[u32]) -> (r: Vec<u32>)
+    ensures r@ == s@,
+{ unimplemented!() }
+
+// R6e (`parse_character_class`): `for c in start..=end { cm.add_case_closure_to(c, &mut builder); }`
+// (iteration over a RangeInclusive<char> has no vstd specification): adds the case closure of every
+// character of the range.
+#[verifier::external_body]
+pub fn add_case_closure_range(cm: &CaseMapCloser, start: char, end: char, builder: &mut CodePointInversionListBuilder)
+    ensures forall|x: char| #[trigger] final(builder).has(x) == (old(builder).has(x) || exists|c: char| start <= c && c <= end && closure(c, x)),
+{ unimplemented!() }
